@@ -596,3 +596,22 @@ def presuppose(ck, fx, cg, sibling, pick, rule, title, floor=1):
           "%d obligation(s) of %s hold" % (len(sel), sibling) if not bad else
           "%d obligation(s) of %s violated, first: %s %s — %s" % (len(bad), sibling, bad[0]["rule"], bad[0]["key"], bad[0]["detail"][:220]))
     ck.floor(rule, "%s obligations evaluated for `%s`" % (sibling, title), len(sel), floor)
+
+
+def fn_at(fx, at):
+    """the local function whose body contains source position `file:line` (closures belong to their function)"""
+    try:
+        f, l = at.rsplit(":", 1)[0], int(at.rsplit(":", 1)[1])
+    except (ValueError, IndexError, AttributeError):
+        try:
+            f, l, _ = at.rsplit(":", 2)
+            l = int(l)
+        except Exception:
+            return None
+    best = None
+    for hb in fx.hir_by_did.values():
+        sp = hb.get("span") or {}
+        if sp.get("f") == f and sp.get("l", 10 ** 9) <= l and hb.get("dk") in ("Fn", "AssocFn"):
+            if best is None or sp["l"] > best["span"]["l"]:
+                best = hb
+    return best
